@@ -233,6 +233,14 @@ func runC07(c *Ctx) {
 		// the write error is surfaced on every path
 		wr := c.method("io", "Writer", "Write")
 		g := errNil("file.Write", find(fn, callTo(wr)), 1)
+		// ... or nothing is (left) to be written: len(<the bytes handed in>) <= 0
+		isLenBuf := func(v ssa.Value) bool {
+			call, ok := ir.Strip(v).(*ssa.Call)
+			return ok && isBuiltin("len")(call) && len(fn.Params) > 1 && ir.DerivesFrom(call.Call.Args[0], func(x ssa.Value) bool { return x == ssa.Value(fn.Params[1]) })
+		}
+		if empty, _ := relGuard("len(header) <= 0", fn, isLenBuf, constIntIs(0), token.LEQ); len(empty.sites) > 0 {
+			g = unionGuard("file.Write = nil, or nothing left to write", g, empty)
+		}
 		c.nilReturnsGuarded(fn, g, 1)
 	})
 
@@ -332,6 +340,135 @@ func runC07(c *Ctx) {
 			return
 		}
 		c.verdict(len(inPkg) == 0 && len(elsewhere) >= 1, "package headerfs | sub-buckets are never deleted", "-", fmt.Sprintf("no bucket deletion in headerfs (selector control: %d deletion site(s) elsewhere in the module)", len(elsewhere)), "bucket deleted at "+join(inPkg)+fmt.Sprintf(" while addHeaders fails hard on a missing sub-bucket (control sites elsewhere: %d)", len(elsewhere)), append(inPkg, elsewhere...)...)
+	})
+
+	c.rule("C07.O4", "pooled write buffers start empty: wherever the module takes a *bytes.Buffer from a sync.Pool, either Reset() is called on it before anything else touches it on every path, or every Put of such a buffer (deferred ones at every exit) comes after a Reset() (a buffer handed back by a failed append still holds that batch; written out in front of the next batch it would put records the index knows nothing about into the file)", func() {
+		get := c.method("sync", "Pool", "Get")
+		put := c.method("sync", "Pool", "Put")
+		reset := c.method("bytes", "Buffer", "Reset")
+		isBuf := func(v ssa.Value) bool {
+			if mi, ok := v.(*ssa.MakeInterface); ok {
+				v = mi.X
+			}
+			p, ok := v.Type().(*types.Pointer)
+			if !ok {
+				return false
+			}
+			nt, ok := p.Elem().(*types.Named)
+			return ok && nt.Obj().Name() == "Buffer" && nt.Obj().Pkg() != nil && nt.Obj().Pkg().Path() == "bytes"
+		}
+		isResetCall := func(in ssa.Instruction) bool {
+			_, isCall := in.(*ssa.Call)
+			return isCall && callTo(reset)(in)
+		}
+		// (b) every Put of a buffer is behind a Reset
+		putsClean := true
+		var putSites, dirtyPuts []string
+		for _, fn := range c.P.Funcs {
+			for _, in := range find(fn, callTo(put)) {
+				cc := ir.CallOf(in)
+				if len(cc.Args) < 2 || !isBuf(cc.Args[1]) {
+					continue
+				}
+				putSites = append(putSites, c.at(in))
+				dirty := false
+				if _, isDefer := in.(*ssa.Defer); isDefer {
+					ir.WalkCtx(in.Block(), ir.IndexIn(in)+1, nil, nil, func(x ssa.Instruction) bool {
+						if isResetCall(x) {
+							return false
+						}
+						if _, isRet := x.(*ssa.Return); isRet {
+							dirty = true
+						}
+						if _, isRD := x.(*ssa.RunDefers); isRD {
+							dirty = true
+						}
+						return true
+					})
+				} else {
+					ir.WalkCtx(fn.Blocks[0], 0, nil, nil, func(x ssa.Instruction) bool {
+						if isResetCall(x) {
+							return false
+						}
+						if x == in {
+							dirty = true
+						}
+						return true
+					})
+				}
+				if dirty {
+					putsClean = false
+					dirtyPuts = append(dirtyPuts, c.at(in))
+				}
+			}
+		}
+		n := 0
+		for _, fn := range c.P.Funcs {
+			gets := find(fn, callTo(get))
+			if len(gets) == 0 {
+				continue
+			}
+			fromPool := func(v ssa.Value) bool {
+				return ir.DerivesFrom(v, func(x ssa.Value) bool {
+					in, ok := x.(ssa.Instruction)
+					return ok && callTo(get)(in)
+				})
+			}
+			isReset := func(in ssa.Instruction) bool {
+				if !isResetCall(in) {
+					return false
+				}
+				cc := ir.CallOf(in)
+				return len(cc.Args) > 0 && fromPool(cc.Args[0])
+			}
+			isUse := func(in ssa.Instruction) bool {
+				call, isCall := in.(*ssa.Call)
+				if !isCall || isReset(in) {
+					return false
+				}
+				cc := call.Common()
+				vals := append([]ssa.Value{}, cc.Args...)
+				if cc.IsInvoke() {
+					vals = append(vals, cc.Value)
+				}
+				for _, a := range vals {
+					if mi, ok := a.(*ssa.MakeInterface); ok {
+						a = mi.X
+					}
+					if isBuf(a) && fromPool(a) {
+						return true
+					}
+				}
+				return false
+			}
+			uses := find(fn, isUse)
+			if len(uses) == 0 && len(find(fn, isReset)) == 0 {
+				continue
+			}
+			n++
+			construct := c.nm(fn) + " | the pooled buffer is empty when first used"
+			var bad []string
+			ir.WalkCtx(fn.Blocks[0], 0, nil, nil, func(in ssa.Instruction) bool {
+				if isReset(in) {
+					return false
+				}
+				if isUse(in) {
+					bad = append(bad, c.at(in))
+				}
+				return true
+			})
+			sort.Strings(bad)
+			bad = uniq(bad)
+			switch {
+			case len(bad) == 0:
+				c.pass(construct, c.P.Pos(fn.Pos()), "Reset() precedes every use on every path", c.ats(uses)...)
+			case putsClean && len(putSites) > 0:
+				c.pass(construct, c.P.Pos(fn.Pos()), "every Put of a buffer into a pool comes after a Reset()", putSites...)
+			default:
+				c.fail(construct, c.P.Pos(fn.Pos()), fmt.Sprintf("the buffer taken from the pool is used at %s without a Reset() before it, and buffers are put back without a Reset() at %s: what a failed append left in the buffer is written in front of the next batch", join(bad), join(dirtyPuts)), bad...)
+			}
+		}
+		c.verdict(n >= 2, "module | functions that take a write buffer from a sync.Pool", "-", fmt.Sprintf("%d function(s) examined", n), fmt.Sprintf("found %d function(s) using a pooled *bytes.Buffer, the pinned tree has 2 (both WriteHeaders)", n))
 	})
 
 	c.rule("C07.O3", "a read delivers what was asked for or fails: readRaw and readHeadersFromFile hand their buffer on only when File.ReadAt reported no error at all (a short read at the end of the file is an error, not a shorter result), and they hand on the whole buffer they allocated", func() {
